@@ -318,6 +318,22 @@ func (w *l1world) installFaults(fs []faultSpec, o *tw) {
 	}
 }
 
+// canonical names (%k) of the root nodes of the versions under current/
+func (w *l1world) currentRootNodes() []string {
+	var res []string
+	snap := w.s3.snapshot()
+	for _, name := range w.s3.keys(l1Prefix + "/root/current/") {
+		var r struct{ Link *string }
+		if json.Unmarshal(snap[l1Prefix+"/root/current/"+name], &r) == nil && r.Link != nil {
+			if _, ok := w.nn.m[*r.Link]; ok {
+				res = append(res, w.nn.nm(*r.Link))
+			}
+		}
+	}
+	sort.Strings(res)
+	return res
+}
+
 func okerr(out *tw, err error) {
 	if err != nil && os.Getenv("VERIF_TRACE") != "" {
 		fmt.Fprintf(os.Stderr, "  error: %v\n", err)
@@ -537,16 +553,22 @@ func (w *l1world) exec(op *kop, hstats map[string]int) (known string, ok bool) {
 		o.z(op.before)
 		bad := 0
 		type rootT struct {
-			Created *time.Time
+			Created *time.Time `json:"cr,omitempty"`
 		}
 		check := func(name string) {
 			vdb, err := kv.Open(ctx, fromSnapshot(w.s3.snapshot()), w.cfg(), kv.OpenOptions{ReadOnly: true, OnlyVersions: []string{name}}, time.Unix(0, baseTime))
 			if err != nil {
+				if os.Getenv("VERIF_TRACE") != "" {
+					fmt.Fprintf(os.Stderr, "  walk: open %s: %v\n", name, err)
+				}
 				bad++
 				return
 			}
 			var sink tw
 			if catch(func() { err = w.dump(&sink, vdb) }) || err != nil {
+				if os.Getenv("VERIF_TRACE") != "" {
+					fmt.Fprintf(os.Stderr, "  walk: scan %s: %v\n", name, err)
+				}
 				bad++
 			}
 		}
@@ -841,9 +863,13 @@ func runL1History(g *gen, mode string, nops int, hstats map[string]int, faulty, 
 		for i := 0; i < k; i++ {
 			script = append(script, &kop{kind: "open", h: nextH + i, when: baseTime - 3000000000 + int64(i)*1000000000, seed: g.r.Int63n(1000000)})
 		}
+		sameKey := mode != "rows" && g.r.Intn(2) == 0 // tombstones of ONE key at different times meet in the merge
+		perm := g.r.Perm(k)
 		for i := 0; i < k; i++ {
-			op := &kop{kind: "set", h: nextH + i, key: keys[i%len(keys)], when: baseTime + int64(i)*10}
-			if mode == "rows" {
+			op := &kop{kind: "set", h: nextH + i, key: keys[i%len(keys)], when: baseTime + int64(perm[i])*10}
+			if sameKey {
+				op.kind, op.key = "tomb", keys[0]
+			} else if mode == "rows" {
 				op.row = g.row(ncols, true)
 			} else {
 				op.pval = int64(g.r.Intn(50))
@@ -993,13 +1019,32 @@ func runL1History(g *gen, mode string, nops int, hstats map[string]int, faulty, 
 							faultSpec{"G", "n", nd, 1, []int{fErr, fGone}[g.r.Intn(2)], true})
 					}
 				}
+				if mode == "rows" {
+					// whether a merge that adds nothing re-stores the root node depends on
+					// reflect.DeepEqual over protobuf messages (internal caches): no fault on that PUT
+					var m2 []faultSpec
+					for _, f := range menu {
+						if !(f.kind == "P" && f.class == "n") {
+							m2 = append(m2, f)
+						}
+					}
+					menu = m2
+				}
+				if roots := w.currentRootNodes(); len(roots) >= 2 && g.r.Intn(2) == 0 {
+					// several versions to merge: aim at the root node of one of them
+					nd := roots[g.r.Intn(len(roots))]
+					menu = []faultSpec{{"G", "n", nd, 0, []int{fErr, fGone}[g.r.Intn(2)], false},
+						{"G", "n", nd, 1, []int{fErr, fGone}[g.r.Intn(2)], true}, {"G", "n", nd, 1, []int{fErr, fGone}[g.r.Intn(2)], true}}
+				}
 			case "commit":
 				menu = []faultSpec{{"P", "n", "*", 0, fErr, false}, {"P", "c", "*", 0, fErr, false}, {"P", "m", "*", g.r.Intn(2), fErr, false}, {"D", "c", "*", g.r.Intn(2), fErr, false}}
 			case "delhist", "vacuum":
 				// history deletion visits versions in map-iteration order: a fault keyed by "the n-th
 				// request" would hit different objects in the implementation and in the model, so
 				// faults are keyed by object (its n-th request), or hit the whole operation
-				menu = []faultSpec{{"L", "c", "*", 0, fErr, false}, {"D", "c", "*", 0, fErr, false}}
+				// (the first DELETE under merged/ comes after every node deletion and before any other
+				// version deletion, whichever version it is)
+				menu = []faultSpec{{"L", "c", "*", 0, fErr, false}, {"D", "c", "*", 0, fErr, false}, {"D", "m", "*", 0, fErr, false}, {"D", "m", "*", 0, fErr, false}}
 				if len(known) > 0 {
 					v := w.nm.nm(known[g.r.Intn(len(known))])
 					menu = append(menu, faultSpec{"G", "m", v, g.r.Intn(2), fErr, false}, faultSpec{"G", "c", v, 0, fErr, false})
